@@ -28,6 +28,7 @@ type c43Case struct {
 	Tunnels    []c43Tunnel `json:"tunnels"`
 	Registered []string    `json:"registered"`
 	GenFailAt  int         `json:"genFailAt,omitempty"`
+	ListFails  bool        `json:"listFails,omitempty"` // the RegisteredHostnames query fails
 }
 
 var (
@@ -40,7 +41,7 @@ var (
 
 func TestC43(t *testing.T) {
 	rec := ev.New(t, "C43")
-	rec.Rule("rapid-generated tunnel lists (0..7 tunnels; targets from a pool of 5 so duplicates occur; ~1/8 without target; hostname absent / pre-set dot-free / pre-set custom, pre-set names pairwise distinct) and registered-hostname sets (distinct; any mix of free auto-generated names, free custom (dotted) names, names already used by a tunnel of the list, in generated order); fake gateway RPC with fresh unique GenerateHostname answers; 1/10 of cases make one GenerateHostname call fail. The real Client.SyncConfigTunnels runs; observed: the client's tunnel list afterwards and the written config file. Non-trivial: at least one tunnel needs a hostname and the registered set is not empty. Distinct = distinct (tunnel list, registered list, failure index).")
+	rec.Rule("rapid-generated tunnel lists (0..7 tunnels; targets from a pool of 5 so duplicates occur; ~1/8 without target; hostname absent / pre-set dot-free / pre-set custom, pre-set names pairwise distinct) and registered-hostname sets (distinct; any mix of free auto-generated names, free custom (dotted) names, names already used by a tunnel of the list, in generated order); fake gateway RPC with fresh unique GenerateHostname answers; 1/10 of cases make one GenerateHostname call fail, 1/10 make the RegisteredHostnames query fail. The real Client.SyncConfigTunnels runs; observed: the client's tunnel list afterwards and the written config file. Non-trivial: at least one tunnel needs a hostname and the registered set is not empty. Distinct = distinct (tunnel list, registered list, failure index).")
 	rec.Assume("pre-set hostnames are pairwise distinct and the gateway's registered list has no duplicates (a duplicate there is a configuration/server error the statement cannot satisfy)", "GenerateHostname answers are fresh (never a name already registered or configured), as the gateway guarantees")
 	dir := scratchDir(t, "c43")
 	node := &protocol.Node{Id: 1, Address: "gw-1:443"}
@@ -82,8 +83,11 @@ func TestC43(t *testing.T) {
 				cs.Registered = append(cs.Registered, h)
 			}
 		}
-		if rapid.IntRange(0, 9).Draw(t, "failMode") == 0 {
+		switch rapid.IntRange(0, 9).Draw(t, "failMode") {
+		case 0:
 			cs.GenFailAt = rapid.IntRange(1, 3).Draw(t, "genFailAt")
+		case 1:
+			cs.ListFails = true
 		}
 
 		// ---- run the real sync
@@ -91,7 +95,7 @@ func TestC43(t *testing.T) {
 		for i, tn := range cs.Tunnels {
 			before[i] = client.Tunnel{Target: tn.Target, Hostname: tn.Hostname, Insecure: tn.Insecure, ProxyHeaderMode: tn.Mode}
 		}
-		fake := &fakeTC{registered: cs.Registered, genPrefix: "gen-", genFailAt: cs.GenFailAt}
+		fake := &fakeTC{registered: cs.Registered, genPrefix: "gen-", genFailAt: cs.GenFailAt, regFail: cs.ListFails}
 		path := filepath.Join(dir, "client.yaml")
 		c, _, _ := newClient(path, before, fake, []*protocol.Node{node}, nil, nil)
 		c.SyncConfigTunnels(context.Background())
@@ -145,10 +149,13 @@ func TestC43(t *testing.T) {
 		if cs.GenFailAt > 0 {
 			labels = append(labels, "rpc-failure-injected")
 		}
+		if cs.ListFails {
+			labels = append(labels, "listing-failure-injected")
+		}
 		if !allTargets {
 			labels = append(labels, "has-targetless-tunnel")
 		}
-		rec.Case(needed >= 1 && len(cs.Registered) >= 1, fmt.Sprintf("%v|%v|%d", cs.Tunnels, cs.Registered, cs.GenFailAt), func() any { return doc }, labels...)
+		rec.Case(needed >= 1 && len(cs.Registered) >= 1, fmt.Sprintf("%v|%v|%d|%v", cs.Tunnels, cs.Registered, cs.GenFailAt, cs.ListFails), func() any { return doc }, labels...)
 
 		// ---- oracle
 		if len(after) != len(before) {
@@ -160,7 +167,7 @@ func TestC43(t *testing.T) {
 		for _, g := range fake.generated {
 			genSet[g] = true
 		}
-		failureHit := cs.GenFailAt > 0 && fake.genCalls >= cs.GenFailAt
+		failureHit := (cs.GenFailAt > 0 && fake.genCalls >= cs.GenFailAt) || cs.ListFails
 		for i, a := range after {
 			b := before[i]
 			if a.Target != b.Target || a.Insecure != b.Insecure || a.ProxyHeaderMode != b.ProxyHeaderMode {
@@ -204,11 +211,13 @@ func TestC43(t *testing.T) {
 				rec.Fail(t, "reusable-hostnames-not-reused-first", doc, "%d registered names reused, expected %d (needed=%d reusable=%d)", reused, wantReuse, needed, len(reusable))
 			}
 		} else if fake.genCalls > 0 && reused != len(reusable) {
+			// holds whatever failed: a sync that could not even list the registered names has no
+			// business asking for new ones while reusable ones exist
 			rec.Fail(t, "reusable-hostnames-not-reused-first", doc, "a new hostname was requested while only %d of %d reusable names were used", reused, len(reusable))
 		}
 
 		// the written config carries the same list (loadable only when every tunnel has a target)
-		if allTargets {
+		if allTargets && !cs.ListFails { // a sync that stopped at the listing writes nothing
 			loaded, err := client.NewConfig(path)
 			if err != nil {
 				rec.Fail(t, "written-config-does-not-load", doc, "config written by sync does not load: %v", err)
